@@ -342,6 +342,6 @@ Lemma load_lit_impl_eq_spec w s M d x :
   0 <= s -> - (x - d + s) <= ndigits M -> ndigits M - d <= w - s ->
   load_lit_impl w s (Sci M d x) = load_lit_spec w s (Sci M d x).
 Proof.
-  intros Hs Hk Hm. unfold load_lit_impl, load_lit_spec.
+  intros Hs Hk Hm. unfold load_lit_impl, load_sci_text, load_lit_spec.
   rewrite (proj2 (Z.ltb_ge _ _) Hm). rewrite sci_impl_eq_spec_when_digits_remain by assumption. reflexivity.
 Qed.
